@@ -299,6 +299,57 @@ def g_norecv_churn(rng, i, **kw):
         scripts[sd].append("drop")
     return scen.Scn("nrchurn%d" % i, fl, kind, cap, wk, sf, sy, scripts, sched, limit=9000, tags=("norecv", "churn"))
 
+def g_lastsend(rng, i, **kw):
+    """a consumer is frozen in the middle of a receive that has found its slot empty; the last sender publishes one more
+    value and goes away; the consumer resumes (it must deliver the value, not report the end)"""
+    fl = kw.get("fl") or rng.choice("BM")
+    cap = rng.choice([1, 2, 4])
+    wk = rng.choice(["busy", "yield"])
+    sf, sy = (0, 0) if wk == "busy" else _spins(rng)
+    scripts = {0: [], 1: []}
+    sched = []
+    view = rng.random() < 0.5
+    pre = rng.choice([0, 1, 2])
+    val = 1
+    for _ in range(pre):
+        scripts[0].append("send:%d" % val); val += 1; sched.append("0*")
+    if view:
+        scripts[1].append("intosingle"); sched.append("1*")
+    rc = rng.choice(["view", "recv"]) if view else "recv"
+    for _ in range(pre):
+        scripts[1].append(rc); sched.append("1*")
+    shared = (not view) and rng.random() < 0.4
+    if shared:
+        scripts[1].insert(0, "clone:2"); scripts[2] = ["drop"]; sched.insert(0, "1*")
+    scripts[1].append(rc)
+    sched += ["1"] * rng.choice([3, 4, 5, 6, 7, 8, 9])
+    scripts[0].append("send:%d" % val); val += 1; sched.append("0*")
+    scripts[0].append("drop"); sched.append("0*")
+    sched.append("1*")
+    scripts[1] += [rc, rc, "drop"]
+    return scen.Scn("lastsend%d" % i, fl, "plain", cap, wk, sf, sy, scripts, sched, limit=1500, tags=("lastsend", "disc"))
+
+def g_lagdrop(rng, i, **kw):
+    """futures queue, ring full only because one stream lags; the sink task parks; the lagging stream is dropped or
+    unsubscribed while another stream stays: the parked sender has to be notified"""
+    cap = rng.choice([1, 1, 2])
+    n = cap_n(cap)
+    sf, sy = _spins(rng)
+    scripts = {0: [], 1: ["addstream:2"], 2: []}
+    sched = ["1*"]
+    val = 1
+    for _ in range(n):
+        scripts[0].append("asend:%d" % val); val += 1; sched.append("0*")
+    for _ in range(n):
+        scripts[1].append(rng.choice(["apoll", "poll", "recv"])); sched.append("1*")
+    scripts[0].append("asend:%d" % val); val += 1; sched.append("0*")
+    if rng.random() < 0.5:
+        scripts[1].append("apoll"); sched.append("1*")
+    scripts[2].append(rng.choice(["drop", "unsub"])); sched.append("2*")
+    if rng.random() < 0.5:
+        scripts[0].append("drop")
+    return scen.Scn("lagdrop%d" % i, "B", "fut", cap, "fut", sf, sy, scripts, sched, limit=1500, tags=("lagdrop", "fut"))
+
 def g_fut(rng, i, **kw):
     """sink tasks and stream tasks that await notifications"""
     fl = kw.get("fl") or rng.choice("BBM")
@@ -580,7 +631,7 @@ def g_solo(rng, i, **kw):
 
 GENS = {"seq": g_seq, "rand": g_rand, "pc": g_pc, "view": g_view, "teardown": g_teardown, "disc": g_disc,
         "norecv": g_norecv, "block": g_block, "fut": g_fut, "churn": g_churn, "quiesce": g_quiesce,
-        "addstream": g_addstream, "unsub": g_unsub, "handles": g_handles, "futseq": g_futseq, "solo": g_solo, "reclaim": g_reclaim, "lapped": g_lapped, "pinned": g_pinned, "norecv_churn": g_norecv_churn}
+        "addstream": g_addstream, "unsub": g_unsub, "handles": g_handles, "futseq": g_futseq, "solo": g_solo, "reclaim": g_reclaim, "lapped": g_lapped, "pinned": g_pinned, "norecv_churn": g_norecv_churn, "lastsend": g_lastsend, "lagdrop": g_lagdrop}
 
 # ---------------------------------------------------------------- small scenarios for exhaustive schedules
 def smalls_ring():
@@ -594,12 +645,12 @@ def smalls_ring():
 ORACLES = dict(oracle.ORACLES)
 
 PROPS = {
-    "C01": {"gens": [("seq", 30, {}), ("rand", 60, {}), ("pc", 80, {})], "small": smalls_ring(), "oracles": ["C01"]},
+    "C01": {"gens": [("seq", 30, {}), ("rand", 50, {}), ("pc", 70, {}), ("lastsend", 30, {})], "small": smalls_ring(), "oracles": ["C01", "C07"]},
     "C02": {"gens": [("rand", 50, {}), ("pc", 100, {})], "small": smalls_ring(), "oracles": ["C02", "C01"]},
     "C03": {"gens": [("rand", 40, {}), ("pc", 110, {})], "small": smalls_ring(), "oracles": ["C03"]},
     "C04": {"gens": [("view", 90, {}), ("pc", 40, {"fl": "B"}), ("pinned", 30, {})], "small": smalls_ring()[:2], "oracles": ["C04", "C01"]},
     "C05": {"gens": [("teardown", 110, {}), ("rand", 40, {})], "small": smalls_ring()[:2], "oracles": ["C05"]},
-    "C07": {"gens": [("disc", 130, {}), ("rand", 30, {})], "small": [], "oracles": ["C07"]},
+    "C07": {"gens": [("disc", 100, {}), ("lastsend", 40, {}), ("rand", 20, {})], "small": [], "oracles": ["C07"]},
     "C13": {"gens": [("norecv", 110, {}), ("norecv_churn", 24, {}), ("rand", 20, {})], "small": [], "oracles": ["C13"]},
     "C06": {"gens": [("quiesce", 150, {})], "small": [], "oracles": ["C06"]},
     "C08": {"gens": [("block", 130, {}), ("lapped", 40, {})], "small": [], "oracles": ["C08"]},
@@ -607,8 +658,8 @@ PROPS = {
     "C10": {"gens": [("addstream", 150, {})], "small": [], "oracles": ["C01", "C03", "C10"]},
     "C11": {"gens": [("unsub", 150, {})], "small": [], "oracles": ["C11", "C01", "C03"]},
     "C12": {"gens": [("handles", 150, {})], "small": smalls_ring()[:1], "oracles": ["C01", "C02", "C03"]},
-    "C14": {"gens": [("fut", 170, {})], "small": [], "oracles": ["C14"]},
-    "C15": {"gens": [("futseq", 90, {}), ("fut", 60, {})], "small": [], "oracles": ["C15", "C09", "C01"]},
+    "C14": {"gens": [("fut", 140, {}), ("lagdrop", 30, {})], "small": [], "oracles": ["C14"]},
+    "C15": {"gens": [("futseq", 80, {}), ("fut", 50, {}), ("lagdrop", 20, {})], "small": [], "oracles": ["C15", "C09", "C01", "C14"]},
     "C16": {"gens": [("reclaim", 40, {}), ("churn", 50, {}), ("rand", 30, {})], "small": [], "oracles": ["C16"]},
     "C17": {"gens": [("reclaim", 20, {}), ("churn", 50, {}), ("teardown", 60, {})], "small": [], "oracles": ["C17"]},
     "C18": {"gens": [("solo", 120, {}), ("pinned", 40, {})], "small": [], "oracles": ["C18"]},
